@@ -32,9 +32,11 @@ Cmd == 1..N
 VARIABLES direct, listed, fails,
           ignored,        \* ignored[c]: referenced results that c's execute never reads (a short-circuiting consumer)
           nulls,          \* commands whose execute returns None
+          late,           \* commands that are added to the program (add_command) only after the first call has returned
+          added,          \* ... and whether that has happened
           pstate, queue, st, nexec, ndone, stack, todo, val, err, hist
-prog == <<direct, listed, fails, ignored, nulls>>
-vars == <<direct, listed, fails, ignored, nulls, pstate, queue, st, nexec, ndone, stack, todo, val, err, hist>>
+prog == <<direct, listed, fails, ignored, nulls, late, added>>     \* everything only AddLate may change
+vars == <<direct, listed, fails, ignored, nulls, late, added, pstate, queue, st, nexec, ndone, stack, todo, val, err, hist>>
 
 Deps(c) == direct[c] \cup listed[c]
 NoVal == <<>>
@@ -51,8 +53,9 @@ Unfold(c) == <<c, [d \in Reads(c) |-> Unfold(d)]>>         \* the mathematical e
 DependsOnFailure(c) == \E d \in Reach({c}, N) : d \in fails
 
 \* ---------- leaves as Program.run computes them
-Dependents(c) == {x \in Cmd : c \in direct[x] \/ (LeafKey = "name" /\ c \in listed[x])}
-Leaves == {c \in Cmd : Dependents(c) = {}}
+Present == IF added THEN Cmd ELSE Cmd \ late
+Dependents(c) == {x \in Present : c \in direct[x] \/ (LeafKey = "name" /\ c \in listed[x])}
+Leaves == {c \in Present : Dependents(c) = {}}
 SeqOf(S) == LET RECURSIVE F(_, _)
                 F(k, acc) == IF k > N THEN acc ELSE F(k + 1, IF k \in S THEN Append(acc, k) ELSE acc)
             IN F(1, <<>>)
@@ -73,7 +76,9 @@ Init == /\ \E g \in [Cmd -> SUBSET Cmd] :
         /\ \E I \in {{}} \cup {{e} : e \in {e \in Cmd \X Cmd : e[2] \in Deps(e[1])}} :
               ignored = [c \in Cmd |-> {d \in Cmd : <<c, d>> \in I}]
         /\ nulls \in {{}} \cup {{c} : c \in Cmd}
-        /\ Cardinality(fails) + Cardinality(UNION {ignored[c] : c \in Cmd}) + Cardinality(nulls) <= MaxSpecial
+        /\ late \in {{}} \cup {{c} : c \in {c \in Cmd : \A x \in Cmd : c \notin Deps(x)}}      \* only a command nothing refers to can be added later
+        /\ added = FALSE
+        /\ Cardinality(fails) + Cardinality(UNION {ignored[c] : c \in Cmd}) + Cardinality(nulls) + Cardinality(late) <= MaxSpecial
         /\ pstate = "idle" /\ queue = <<>> /\ st = [c \in Cmd |-> "new"]
         /\ nexec = [c \in Cmd |-> 0] /\ ndone = [c \in Cmd |-> 0]
         /\ stack = <<>> /\ todo = [c \in Cmd |-> {}] /\ val = [c \in Cmd |-> NoVal]
@@ -86,7 +91,7 @@ CallRun == /\ Idle /\ Len(hist) < MaxCalls /\ hist' = Append(hist, <<"run", 0>>)
            /\ pstate' = "prepass" /\ err' = "none"
            /\ UNCHANGED <<prog, queue, st, nexec, ndone, stack, todo, val>>
 Prepass == /\ pstate = "prepass" /\ pstate' = "running"
-           /\ queue' = SeqOf(Leaves) \o (IF Sweep THEN SeqOf(Cmd \ Leaves) ELSE <<>>)
+           /\ queue' = SeqOf(Leaves) \o (IF Sweep THEN SeqOf(Present \ Leaves) ELSE <<>>)
            /\ UNCHANGED <<prog, st, nexec, ndone, stack, todo, val, err, hist>>
 
 \* ---------- Command.run(c), entered from the leaf loop or from a dependency pull
@@ -136,12 +141,16 @@ ReturnCall == /\ pstate = "running" /\ stack = <<>> /\ queue = <<>> /\ pstate' =
               /\ UNCHANGED <<prog, queue, st, nexec, ndone, stack, todo, val, err, hist>>
 
 \* ---------- program.commands[c].result
-CallResult(c) == /\ Idle /\ Len(hist) < MaxCalls /\ hist' = Append(hist, <<"result", c>>)
+\* program.add_command(...) between two calls
+AddLate == /\ Idle /\ hist # <<>> /\ ~added /\ late # {} /\ Len(hist) < MaxCalls
+           /\ added' = TRUE /\ hist' = Append(hist, <<"add", 0>>)
+           /\ UNCHANGED <<direct, listed, fails, ignored, nulls, late, pstate, queue, st, nexec, ndone, stack, todo, val, err>>
+CallResult(c) == /\ Idle /\ c \in Present /\ Len(hist) < MaxCalls /\ hist' = Append(hist, <<"result", c>>)
                  /\ pstate' = "running" /\ err' = "none" /\ queue' = <<c>>
                  /\ UNCHANGED <<prog, st, nexec, ndone, stack, todo, val>>
 
 Internal == Prepass \/ PickLeaf \/ (\E d \in Cmd : Pull(d)) \/ ExecEnd \/ ExecFail \/ Unwind \/ ReturnCall
-Next == CallRun \/ (\E c \in Cmd : CallResult(c)) \/ Internal
+Next == CallRun \/ (\E c \in Cmd : CallResult(c)) \/ AddLate \/ Internal
 Spec == Init /\ [][Next]_vars /\ WF_vars(Internal)
 
 \* ---------- properties
@@ -151,7 +160,7 @@ Terminal == pstate \in {"returned", "raised"}
 \* C01: nothing is executed to completion twice; without failures or cycles nothing even starts twice
 ExactlyOnce == \A c \in Cmd : ndone[c] <= 1 /\ ((fails = {} /\ ~HasCycle) => nexec[c] <= 1)
 \* C01: a successful run leaves every command executed
-RunCompletes == (pstate = "returned" /\ LastIsRun) => \A c \in Cmd : st[c] = "finished" /\ ndone[c] = 1
+RunCompletes == (pstate = "returned" /\ LastIsRun) => \A c \in Present : st[c] = "finished" /\ ndone[c] = 1
 \* C01: an execution only begins for a command that is neither finished nor in progress
 NoReexec == [][\A c \in Cmd : nexec'[c] > nexec[c] => st[c] = "new"]_vars
 \* C01: re-running / re-reading after a successful run executes nothing
@@ -172,5 +181,5 @@ Terminates == [](~Idle ~> Idle)
 
 \* printed once per terminal state for the replay harness (single worker runs only)
 Report == (Terminal /\ Len(hist) = MaxCalls) =>
-             PrintT(<<"TERM", direct, listed, fails, ignored, nulls, hist, pstate, err, nexec, ndone>>)
+             PrintT(<<"TERM", direct, listed, fails, ignored, nulls, late, hist, pstate, err, nexec, ndone>>)
 =============================================================================
